@@ -9225,14 +9225,22 @@ class SVG(Group):
                     width, height = s.width, s.height
                     if s.viewbox is not None:
                         try:
-                            if s.height == 0 or s.width == 0:
-                                return s
-                            viewport_transform = s.viewbox_transform
+                            disabled = s.height == 0 or s.width == 0
+                            viewport_transform = "" if disabled else s.viewbox_transform
                         except ZeroDivisionError:
                             # The width or height was zero.
                             # https://www.w3.org/TR/SVG11/struct.html#SVGElementWidthAttribute
                             # "A value of zero disables rendering of the element."
-                            return s  # No more parsing will be done.
+                            disabled = True
+                        except ValueError:
+                            # The size cannot be resolved to user units (e.g. em without a font size): no viewport scaling.
+                            viewport_transform = ""
+                        if disabled:
+                            if root is None:
+                                return s  # The document itself is disabled. No more parsing will be done.
+                            # A nested svg: only its own subtree is not rendered.
+                            values[SVG_ATTR_DISPLAY] = SVG_VALUE_NONE
+                            continue
 
                         if SVG_ATTR_TRANSFORM in values:
                             # transform on SVG element applied as if svg had parent with transform.
